@@ -173,7 +173,8 @@ array_diff(void *buf1, void *buf2, uint32 tot_cnt, const char *name1, const char
         fp = fopen("hdiff.debug", "w");
     }
 
-    switch (type) {
+    /* the buffers hold memory values whatever flavour (native, little-endian) the file type has */
+    switch (type & DFNT_MASK) {
         case DFNT_INT8:
         case DFNT_CHAR8:
             i4_max_val1 = SCHAR_MIN;
@@ -227,7 +228,7 @@ array_diff(void *buf1, void *buf2, uint32 tot_cnt, const char *name1, const char
         default:
             printf(" bad type - %d\n", type);
     }
-    switch (type) {
+    switch (type & DFNT_MASK) {
 
             /*-------------------------------------------------------------------------
              * DFNT_INT8, DFNT_UINT8, DFNT_UCHAR8, DFNT_CHAR8
